@@ -750,7 +750,7 @@ def run(ctx):
         for n in range(nhist):
             kind = "sqlite" if n % 3 else "mock"
             ops = gen_ops(rng, rng.randint(4, 22), variant)
-            rr = RealRun(kind, ops, safe_order=not variant).run()
+            rr = RealRun(kind, ops, safe_order=False).run()
             cs = stats["commit"]
             cs["histories"] += 1
             cs["silent_mutations"] += rr.silent
@@ -772,6 +772,18 @@ def run(ctx):
             trace = model_history(model, variant, kind, rr.hops)
             d = compare_history(rr, trace)
             case = dict(stream="commit", storage=kind, ops=ops)
+            # claimed-clean domain while the code keeps the stale id: histories on which the two model
+            # variants leave the same rows after every commit / load (the defect P-9 is not exercised);
+            # outside it the code is still compared with the faithful model, whose failure there is P-9
+            in_domain = True
+            if not variant:
+                fixed = model_history(model, True, kind, rr.hops)
+                in_domain = [(m[0], m[1] if m[0] == 3 else 0, sorted((m[2] if m[0] == 3 else m[1])[0])) for m in trace] == \
+                            [(m[0], m[1] if m[0] == 3 else 0, sorted((m[2] if m[0] == 3 else m[1])[0])) for m in fixed]
+                if not in_domain:
+                    cs["out_of_domain_histories"] = cs.get("out_of_domain_histories", 0) + 1
+                    if rr.pred:
+                        cs["out_of_domain_predicate_failures"] = cs.get("out_of_domain_predicate_failures", 0) + 1
             if d is not None:
                 mism.append(("commit", case, d, None))
             cs["model_exact_false"] += sum(1 for x in model_exact_flags(trace) if not x)
@@ -780,7 +792,7 @@ def run(ctx):
                     if m[0] == 3 and m[1] == 0 and m[2][3] != o.get("exact"):
                         mism.append(("exactness", case, dict(model_exactb=m[2][3]), dict(real_exact=o.get("exact"))))
                         break
-            if rr.pred:
+            if rr.pred and in_domain:
                 cs["predicate_failures"] += 1
                 # a write that bypassed updated() explains a stale row; anything else is a failing input
                 if rr.silent == 0:
@@ -792,13 +804,13 @@ def run(ctx):
             if n < 2:
                 samples.append(dict(stream="commit", storage=kind, ops=ops[:6], rows_at_end=[r[0] for r in rr.obs[-1]["rows"]]))
             # reload comparison at the end of the history (everything committed)
-            if not rr.state._dirtyset and rr.obs and rr.obs[-1].get("err", 0) == 0:
+            if in_domain and not rr.state._dirtyset and rr.obs and rr.obs[-1].get("err", 0) == 0:
                 stats["reload"]["n"] += 1
                 dd = so.compare_reload(rr.state, rr.storage, TAG)
                 if dd and not rr.pred:
                     ctx.violation("a state reloaded from committed storage differs in lookups / pending set: %s" % (dd[:3],), case)
                 stats["reload"]["none_key_differences"] += len(
-                    [x for x in so.compare_reload(rr.state, rr.storage, TAG, none_key=True) if x[0] == "lookup-oid" and x[2] is None])
+                    [x for x in so.compare_reload(rr.state, rr.storage, TAG, none_key=True) if x not in dd])
 
         model.close()
         stats["model_calls"] = model.calls
@@ -825,8 +837,9 @@ def run(ctx):
     cov["model_variant"] = ("storage_id cleared when a trash row is deleted (theorems C08_commit_exact_partial / "
                             "C08_commit_order_independent_partial apply to the code)" if variant else
                             "storage_id kept (the code as it is: C08_commit_exact_refuted / "
-                            "C08_commit_order_independent_refuted apply; seeded histories are restricted to iteration "
-                            "orders that process row-less trash entries first)")
+                            "C08_commit_order_independent_refuted apply; the property predicate is evaluated on the seeded "
+                            "histories on which both model variants leave the same rows, the others are compared with the "
+                            "faithful model only and counted as out_of_domain_histories)")
     tb = ["Coq 8.16.1 kernel (coqc); vm_compute used for the _refuted witnesses and the Examples; no native_compute",
           "axioms per theorem as printed by Print Assumptions: " + (", ".join(cov.get("axioms_used", [])) or "none (closed under the global context)"),
           "extraction: ExtrOcamlBasic only; OCaml 4.13.1; coq/ocaml/driver.ml",
